@@ -30,6 +30,24 @@ number) are compared.  Independently of the reference the driver checks, after e
 other than the most recently subscribed one still has a live subscription, and, after the subscriber's end, that
 nothing (outer included) is still subscribed.  The outer and the inners are probes written here (not Subjects), so
 the family depends on no other part of the library than Observable.subscribe and the operators under test.
+
+TEARDOWN reactions (family reent_teardown, generator `gen_teardown`): an optional scenario key
+  teardowns [[m, action, via]]: when the subscription of inner m is DISPOSED WHILE m IS STILL RUNNING (a genuine
+            unsubscription, not the clean-up after m's own completion / error) the action is executed from inside the
+            dispose call, once; via = "dispose" (the dispose function of the probe's own subscription object runs it)
+            or "finally_action" (the inner handed to the operator is probe.pipe(ops.finally_action(hook))).  The hook
+            is armed only if m is still the most recently ARRIVED inner when its subscribe() returns (an inner replaced
+            re-entrantly during its own subscribe-time run, or superseded before it was subscribed at all, is
+            unsubscribed at an implementation-defined moment, or never subscribed: the statement is silent), and it is
+            suppressed once the subscriber has ended / asked for dispose (nothing is observable after that).
+Reading of the statement used by the reference: "unsubscribe the previous inner as soon as a new inner arrives" --
+when the outer emits inner B while inner A holds a subscription, B counts as RECEIVED at that moment and A's
+unsubscription (with its teardown action) is the first thing that happens, before B is subscribed.  Whatever the
+teardown makes the outer emit (inner X) is received AFTER B: the arrival order is A, B, X, so X is the most recently
+received inner; X's elements are forwarded, B -- superseded before it was subscribed -- is stale for good (whether
+it is subscribed-and-disposed or never subscribed is left open: only the subscriber log and "no stale inner keeps a
+subscription after the step" are compared), and completion needs the outer and X.  The order is not left open by the
+statement: received means handed to the operator's on_next, and the nested call starts after B's call started.
 """
 import copy
 import json
@@ -108,12 +126,86 @@ def gen(rng):
     return {"operator": op, "inners": inners, "script": script, "reactions": reactions}
 
 
+TD_VIAS = ["dispose", "finally_action"]
+
+
+def _gen_td_action(rng, n, hots, vals):
+    r = rng.random()
+    if r < 0.58 or not hots and r < 0.80:
+        return ["arrive", rng.randrange(n)]
+    if r < 0.68:
+        return ["outer_complete"]
+    if hots and r < 0.82:
+        return ["push", rng.choice(hots), rng.choice(vals)]
+    if hots and r < 0.90:
+        return ["complete", rng.choice(hots)]
+    if hots and r < 0.93:
+        return ["error", rng.choice(hots)]
+    if r < 0.96:
+        return ["outer_error"]
+    return ["dispose"]
+
+
+def gen_teardown(rng):
+    """Scenarios whose inners run reaction ops from their TEARDOWN (see the module docstring)."""
+    op = rng.choice(OPS)
+    n = rng.choice([3, 3, 4, 4, 5])
+    vals = rng.sample(VALUES, rng.choice([3, 4, 5]))
+    inners = []
+    for m in range(n):
+        r = rng.random()
+        if r < 0.40 or m == 0 and r < 0.70:
+            inners.append({"kind": "hot"})
+        elif r < 0.50:
+            inners.append({"kind": "hot", "initial": rng.choice(vals)})
+        elif r < 0.70 or m == 0:
+            inners.append({"kind": "sync", "values": [rng.choice(vals) for _ in range(rng.choice([0, 1, 1, 2]))],
+                           "end": "open"})
+        else:
+            inners.append({"kind": "sync", "values": [rng.choice(vals) for _ in range(rng.choice([1, 1, 2, 2, 3]))],
+                           "end": rng.choice(["C", "C", "C", "C", "E"])})
+    hots = [m for m, s in enumerate(inners) if s["kind"] == "hot"]
+    holdable = [m for m, s in enumerate(inners) if s["kind"] == "hot" or s["end"] == "open"]
+    teardowns = [[m, _gen_td_action(rng, n, hots, vals), rng.choice(TD_VIAS)] for m in holdable
+                 if m == 0 or rng.random() < 0.7]
+    seen_vals = [v for s in inners for v in s.get("values", [])] + [s["initial"] for s in inners if "initial" in s]
+    reactions = []
+    for _ in range(rng.choice([0, 0, 1, 1, 2])):
+        v = rng.choice(seen_vals) if seen_vals and rng.random() < 0.85 else rng.choice(vals)
+        reactions.append([v, _gen_action(rng, n, hots, vals, True)])
+    script = [["arrive", 0 if rng.random() < 0.7 else rng.choice(holdable)]]
+    length = rng.randint(3, 9)
+    outer_over = False
+    while len(script) < length:
+        a = ["arrive", rng.randrange(n)] if rng.random() < 0.35 else _gen_action(rng, n, hots, vals, False)
+        if a[0] in ("outer_complete", "outer_error", "dispose") and len(script) < length // 2:
+            continue
+        if a[0] == "outer_complete":
+            outer_over = True
+        script.append(a)
+    if not outer_over and rng.random() < 0.6:
+        script.append(["outer_complete"])
+    nested = {a[1] for _m, a, _via in teardowns if a[0] == "arrive"}
+    script = [a for k, a in enumerate(script)                  # leave most of the teardowns' inners to the teardowns
+              if k == 0 or not (a[0] == "arrive" and a[1] in nested and rng.random() < 0.75)]
+    if rng.random() < 0.6:                                     # an early replacement of the first inner
+        script.insert(1, ["arrive", rng.choice([j for j in range(n) if j not in nested or rng.random() < 0.2] or [0])])
+    for m in hots:                                             # what the inners still do at the end
+        if rng.random() < 0.6:
+            script.append(["push", m, rng.choice(vals)])
+        if rng.random() < 0.6:
+            script.append(["complete", m])
+    return {"operator": op, "inners": inners, "script": script, "reactions": reactions, "teardowns": teardowns}
+
+
 # ------------------------------------------------------------------------------------------------ reference
 def reference(sc):
     """The property text, executed.  Returns (log [(step, kind, payload)], facts)."""
     inners, reactions = sc["inners"], sc["reactions"]
     log, facts = [], set()
-    st = {"step": -1, "latest": None, "live": False, "outer": "open", "finished": False}
+    st = {"step": -1, "latest": None, "live": False, "outer": "open", "finished": False, "held": None}
+    tds = {m: a for m, a, _via in sc.get("teardowns", [])}
+    td_fired, td_depth = set(), [0]
     hot = {m: {"state": "open", "value": s.get("initial"), "subscribed": False}
            for m, s in enumerate(inners) if s["kind"] == "hot"}
     used = set()                 # inners already sent (or requested to be sent) through the outer
@@ -144,9 +236,22 @@ def reference(sc):
         elif not st["finished"]:
             facts.add("stale_element")
 
+    def teardown(p):
+        """inner p, still running, loses its subscription (a newer inner was received)"""
+        st["held"] = None
+        if p in tds and p not in td_fired:
+            td_fired.add(p)
+            facts.add("teardown:" + tds[p][0])
+            depth[0] += 1
+            td_depth[0] += 1
+            do(tds[p])
+            td_depth[0] -= 1
+            depth[0] -= 1
+
     def inner_completed(j):
         if current(j):
             st["live"] = False
+            st["held"] = None
             if st["outer"] == "C":
                 facts.add("completed_by_latest_inner")
                 deliver("C")
@@ -171,7 +276,17 @@ def reference(sc):
                 return
             if depth[0] and st["latest"] is not None:
                 facts.add("reentrant_replacement")
-            st["latest"], st["live"] = j, True            # the previous inner is stale from here on
+            prev = st["held"]
+            st["latest"], st["live"] = j, True            # j is RECEIVED; the previous inner is stale from here on
+            if td_depth[0]:
+                facts.add("arrival_during_teardown")
+            if prev is not None:                          # ... and is unsubscribed first (its teardown runs now)
+                teardown(prev)
+                if st["finished"]:
+                    return
+                if st["latest"] != j:                     # the teardown made the outer emit a newer inner
+                    facts.add("superseded_before_subscription")
+                    return
             spec = inners[j]
             if spec["kind"] == "sync":
                 for v in spec["values"]:
@@ -190,6 +305,8 @@ def reference(sc):
                     h["subscribed"] = True
                     if "initial" in spec:
                         inner_next(j, h["value"])
+            if not st["finished"] and st["latest"] == j and st["live"]:
+                st["held"] = j                            # still the latest and running when subscribe() returns
         elif a[0] == "push":
             h = hot[a[1]]
             if h["state"] == "open":
@@ -244,6 +361,27 @@ def run_impl(sc):
     live = {}                    # inner id -> number of live subscriptions
     order = []                   # inner ids in the order they were subscribed
     idx_seen = []
+    tds = {m: (a, via) for m, a, via in sc.get("teardowns", [])}
+    arrivals = []                # inner ids in the order the outer (while open) emitted them
+    ended = [False]              # the subscriber got its terminal notification / asked for dispose
+    td_done = set()
+
+    def after_dispose(m, rec):
+        if (rec is None or not rec["genuine"] or not rec["armed"] or ended[0] or m in td_done or m not in tds
+                or rec["hooked"]):
+            return
+        rec["hooked"] = True
+        td_done.add(m)
+        guarded(tds[m][0], "teardown")
+
+    def wrap(member):
+        base = rx.Observable(member.subscribe)
+        if member.m in tds and tds[member.m][1] == "finally_action":
+            return base.pipe(ops.finally_action(lambda: after_dispose(member.m, member.last)))
+        return base
+
+    def new_rec(observer):
+        return {"o": observer, "armed": False, "genuine": False, "hooked": False}
 
     class Probe:
         """hand-driven hot source (own observer list, remembers its end)"""
@@ -251,7 +389,8 @@ def run_impl(sc):
         def __init__(self, m, spec):
             self.m, self.spec = m, spec
             self.observers, self.state, self.value = [], "open", spec.get("initial")
-            self.observable = rx.Observable(self.subscribe)
+            self.last = None
+            self.observable = wrap(self)
 
         def subscribe(self, observer, scheduler=None):
             if self.m is not None:
@@ -262,24 +401,28 @@ def run_impl(sc):
             if self.state == "E":
                 observer.on_error(Exception(f"inner{self.m}"))
                 return Disposable()
-            rec = [observer]
+            rec = self.last = new_rec(observer)
             self.observers.append(rec)
             live[self.m] = live.get(self.m, 0) + 1
 
             def dispose():
-                if rec in self.observers:          # not yet removed by the probe's own end
-                    self.observers.remove(rec)
+                if any(r is rec for r in self.observers):          # not yet removed by the probe's own end
+                    self.observers = [r for r in self.observers if r is not rec]
                     live[self.m] -= 1
+                    rec["genuine"] = True
+                    if self.m in tds and tds[self.m][1] == "dispose":
+                        after_dispose(self.m, rec)
             d = Disposable(dispose)                # runs its action once
             if "initial" in self.spec:
                 observer.on_next(self.value)
+            rec["armed"] = bool(arrivals) and arrivals[-1] == self.m
             return d
 
         def on_next(self, v):
             if self.state == "open":
                 self.value = v
                 for rec in list(self.observers):
-                    rec[0].on_next(v)
+                    rec["o"].on_next(v)
 
         def _end(self, state, call):
             if self.state == "open":
@@ -287,7 +430,7 @@ def run_impl(sc):
                 recs, self.observers = list(self.observers), []
                 for rec in recs:
                     live[self.m] -= 1
-                    call(rec[0])
+                    call(rec["o"])
 
         def on_completed(self):
             self._end("C", lambda o: o.on_completed())
@@ -298,14 +441,20 @@ def run_impl(sc):
     class Sync:
         def __init__(self, m, spec):
             self.m, self.spec = m, spec
-            self.observable = rx.Observable(self.subscribe)
+            self.last = None
+            self.observable = wrap(self)
 
         def subscribe(self, observer, scheduler=None):
             order.append(self.m)
             live[self.m] = live.get(self.m, 0) + 1
+            rec = self.last = new_rec(observer)
 
             def dispose():
                 live[self.m] -= 1
+                if self.spec["end"] == "open":     # never ends by itself: every dispose is a genuine unsubscription
+                    rec["genuine"] = True
+                    if self.m in tds and tds[self.m][1] == "dispose":
+                        after_dispose(self.m, rec)
             d = Disposable(dispose)
             for v in self.spec["values"]:
                 observer.on_next(v)
@@ -313,6 +462,7 @@ def run_impl(sc):
                 observer.on_completed()
             elif self.spec["end"] == "E":
                 observer.on_error(Exception(f"inner{self.m}"))
+            rec["armed"] = bool(arrivals) and arrivals[-1] == self.m
             return d
 
     members = [Sync(m, s) if s["kind"] == "sync" else Probe(m, s) for m, s in enumerate(inners)]
@@ -331,6 +481,8 @@ def run_impl(sc):
             if a[1] in used:
                 return
             used.add(a[1])
+            if outer.state == "open":
+                arrivals.append(a[1])
             outer.on_next(members[a[1]].observable if which == "switch_latest" else a[1])
         elif a[0] == "push":
             members[a[1]].on_next(a[2])
@@ -343,6 +495,7 @@ def run_impl(sc):
         elif a[0] == "outer_error":
             outer.on_error("outer")
         elif a[0] == "dispose":
+            ended[0] = True
             sub[0].dispose()
         else:
             raise AssertionError(a)
@@ -373,8 +526,14 @@ def run_impl(sc):
     else:
         raise AssertionError(which)
     try:
-        sub[0] = o.subscribe(on_next, lambda e: log.append((step[0], "E", str(e))),
-                             lambda: log.append((step[0], "C", None)))
+        def on_error(e):
+            ended[0] = True
+            log.append((step[0], "E", str(e)))
+
+        def on_completed():
+            ended[0] = True
+            log.append((step[0], "C", None))
+        sub[0] = o.subscribe(on_next, on_error, on_completed)
     except Exception as e:
         log.append((-1, "RAISED", f"subscribe: {type(e).__name__}: {e}"[:300]))
         return log, problems, idx_seen
@@ -384,9 +543,9 @@ def run_impl(sc):
         guarded(a, "step")
         disposed = disposed or a[0] == "dispose"
         over = disposed or any(x[1] in ("E", "C") for x in log)
-        stale = sorted({m for m in order[:-1] if m != order[-1] and live.get(m, 0) > 0})
+        stale = sorted({m for m in order if arrivals and m != arrivals[-1] and live.get(m, 0) > 0})
         if stale:
-            problems.append((k, f"inner(s) {stale} still subscribed although inner {order[-1]} arrived later"))
+            problems.append((k, f"inner(s) {stale} still subscribed although inner {arrivals[-1]} arrived later"))
         multi = sorted(m for m, c in live.items() if m is not None and c > 1)
         if multi:
             problems.append((k, f"inner(s) {multi} subscribed more than once"))
@@ -440,7 +599,7 @@ def check(sc):
 
 
 def size(sc):
-    return (len(sc["script"]) + len(sc["reactions"]) + len(sc["inners"])
+    return (len(sc["script"]) + len(sc["reactions"]) + len(sc["inners"]) + len(sc.get("teardowns", []))
             + sum(len(s.get("values", [])) for s in sc["inners"]))
 
 
@@ -463,6 +622,14 @@ def shrink(sc, kind):
             c = copy.deepcopy(sc)
             del c["reactions"][i]
             cands.append(c)
+        for i in range(len(sc.get("teardowns", []))):
+            c = copy.deepcopy(sc)
+            del c["teardowns"][i]
+            cands.append(c)
+            if sc["teardowns"][i][2] != "dispose":
+                c = copy.deepcopy(sc)
+                c["teardowns"][i][2] = "dispose"
+                cands.append(c)
         for m, s in enumerate(sc["inners"]):
             for i in range(len(s.get("values", []))):
                 c = copy.deepcopy(sc)
@@ -489,11 +656,22 @@ LEGEND = ("inners[j]: sync = emits 'values' inside subscribe() and then complete
           "on_next the first time it receives that value.  ['arrive', j] = the outer emits inner j (at most once per "
           "inner).  'expected' is the property text executed with latest-id semantics: notifications of an inner that "
           "is not the most recently received one at that moment are ignored (elements, error AND completion); the "
-          "result completes only when the outer has completed and the latest inner has completed.")
+          "result completes only when the outer has completed and the latest inner has completed.  teardowns = "
+          "[m, action, via]: executed from inside the dispose call when inner m is unsubscribed while still running "
+          "(via 'dispose': the probe's own subscription object; via 'finally_action': m is wrapped in "
+          "ops.finally_action); the previous inner is unsubscribed as soon as the new one is received and before the "
+          "new one is subscribed, so an inner that the teardown makes the outer emit is received LATER than the inner "
+          "whose arrival caused the teardown and supersedes it.")
 
 
 def scenarios(chk):
-    n = 12000 if chk.tier == "quick" else 120000
+    _family(chk, 12000 if chk.tier == "quick" else 120000, gen, "reent_scenarios", "reent", "reentrant_replacement")
+    _family(chk, 8000 if chk.tier == "quick" else 80000, gen_teardown, "reent_teardown", "reent_teardown",
+            "arrival_during_teardown")
+    chk.cov["rule"] += RULE
+
+
+def _family(chk, n, gen, family, tag, needed_fact):
     hist, fact_hist = {}, {}
     nontrivial = set()
     shrunk, worst = {}, {}
@@ -513,7 +691,7 @@ def scenarios(chk):
             fact_hist[f] = fact_hist.get(f, 0) + 1
         bad = check(sc)
         if bad:
-            sig = f"C12|reent|{sc['operator']}|{bad[0]}"
+            sig = f"C12|{tag}|{sc['operator']}|{bad[0]}"
             timeouts += bad[0] == "timeout"
             if shrunk.get(sig, 0) < 3 and bad[0] != "timeout":                 # minimise the first few per signature, keep the smallest
                 shrunk[sig] = shrunk.get(sig, 0) + 1
@@ -522,31 +700,42 @@ def scenarios(chk):
                 facts = reference(sc)[1]
             if sig in worst and worst[sig][2] <= size(sc):
                 continue
-            worst[sig] = (sig, dict(sc, family="reent_scenarios", mismatch=bad[0], what=bad[1], got=bad[2],
+            worst[sig] = (sig, dict(sc, family=family, mismatch=bad[0], what=bad[1], got=bad[2],
                                     expected=bad[3], facts=sorted(facts), legend=LEGEND), size(sc))
-        elif "reentrant_replacement" in facts and len(e_log) >= 2:
+        elif needed_fact in facts and len(e_log) >= 2:
             nontrivial.add(json.dumps(sc, sort_keys=True, default=repr))
     for sig, rep, sz in worst.values():
         chk.violation(sig, rep, size=sz)
     chk.cov["distinct_nontrivial"] += len(nontrivial)
-    chk.cov["input_distribution"]["reent_scenarios"] = dict(sorted(hist.items(), key=lambda kv: -kv[1])[:40])
-    chk.cov["reent_scenarios"] = {"cases": done, "distinct_nontrivial": len(nontrivial),
+    chk.cov["input_distribution"][family] = dict(sorted(hist.items(), key=lambda kv: -kv[1])[:40])
+    chk.cov[family] = {"cases": done, "distinct_nontrivial": len(nontrivial),
                                   "distinct_shapes (operator / inner kinds)": len(hist),
                                   "cases_with": dict(sorted(fact_hist.items()))}
-    chk.cov["rule"] += ("; plus oracle-only scenarios (reent_scenarios, harness/c12_reent.py): hand-driven outer probe, "
+
+
+RULE = ("; plus oracle-only scenarios (reent_scenarios, harness/c12_reent.py): hand-driven outer probe, "
                         "2-4 inners that are synchronous sources (emit a list and complete / fail / stay open inside "
                         "subscribe()) or hot probes (optionally replaying their current value on subscribe), a seeded "
                         "top-level script and a reaction table executed by the subscriber RE-ENTRANTLY from its "
                         "on_next (make the outer emit a new inner, complete / fail the outer, push / complete / fail a "
                         "hot inner, dispose), so that replaced inners go on emitting, completing and failing; complete "
                         "subscriber logs are compared with an independent latest-id interpreter of the property text, "
-                        "and after every top-level step no inner but the most recently subscribed one may hold a "
+                        "and after every top-level step no inner but the most recently received one may hold a "
                         "subscription (nothing at all after the subscriber's end); non-trivial = oracle holds, a "
-                        "re-entrant replacement happened, >= 2 notifications")
+                        "re-entrant replacement happened, >= 2 notifications"
+                        "; plus oracle-only scenarios (reent_teardown, same module and interpreter): 3-5 inners of "
+                        "which the ones that can hold a subscription (hot probes, synchronous sources that stay open) "
+                        "carry a TEARDOWN reaction executed from inside the dispose call of their subscription (the "
+                        "probe's own dispose function, or ops.finally_action around the inner) when they are "
+                        "unsubscribed while still running: make the outer emit a further inner, complete / fail the "
+                        "outer, push into / complete / fail a hot inner, dispose; the interpreter unsubscribes the "
+                        "previous inner as soon as the new one is received and before the new one is subscribed, so an "
+                        "inner emitted by the outer during that teardown is the more recently received one; "
+                        "non-trivial = oracle holds, an inner arrived during a teardown, >= 2 notifications")
 
 
 def replay_case(rep, path):
-    sc = {k: rep[k] for k in ("operator", "inners", "script", "reactions")}
+    sc = {k: rep[k] for k in ("operator", "inners", "script", "reactions", "teardowns") if k in rep}
     bad = check(sc)
     if bad:
         print(json.dumps(dict(sc, mismatch=bad[0], what=bad[1], got=bad[2], expected=bad[3]), indent=1, default=repr))
